@@ -56,6 +56,7 @@ def fingerprints(repo):
             rel = os.path.relpath(p, repo)
             spans = cov.get(rel, [])
             keep = []
+            whole = []
             in_tests = False
             for i, l in enumerate(open(p, encoding="utf-8", errors="replace").read().split("\n"), 1):
                 if l.startswith("#[cfg(test)]"):
@@ -63,6 +64,8 @@ def fingerprints(repo):
                 if in_tests:
                     continue
                 t = l.strip()
+                if t and not t.startswith("//"):
+                    whole.append(t)
                 # attributes of copied types (serde / derive: dropped by the extractor) stay in the residual
                 if any(a <= i <= b and not (k == "item" and t.startswith("#[")) for (a, b, k) in spans):
                     continue
@@ -70,6 +73,7 @@ def fingerprints(repo):
                     continue
                 keep.append(t)
             out[rel] = hashlib.sha256("\n".join(keep).encode()).hexdigest()[:20]
+            out["full:" + rel] = hashlib.sha256("\n".join(whole).encode()).hexdigest()[:20]
     return out, refused
 
 
@@ -78,6 +82,11 @@ def changed_files(repo):
     cur, refused = fingerprints(repo)
     ch = sorted(f for f in set(base) | set(cur) if base.get(f) != cur.get(f))
     return ch, refused
+
+
+def split(changed):
+    """(files whose text under no contract changed, files whose program text changed at all)"""
+    return [f for f in changed if not f.startswith("full:")], [f[5:] for f in changed if f.startswith("full:")]
 
 
 def update(repo):
